@@ -1096,7 +1096,10 @@ def _classify(err):
             else:
                 tags.add("")
         elif not (fl & 2) and role.get(r) == 1 and snap.get("cycles") and mp.get(r) != mp.get(t):
-            tags.add(" [m2o-unset-delete-cycle]")
+            # does the unit of work know the old target (is it in the holder's get_all_pending list)?
+            dj = [d[0] for d in snap.get("deps", []) if d[1] == 1 and d[6] == cc]
+            known = any(l[0] in dj and l[1] == r and l[2] == t for l in snap.get("links", []))
+            tags.add(" [m2o-unset-delete-cycle]" if known else " [m2o-unset-delete-unloaded]")
         else:
             tags.add("")
     return tags.pop() if len(tags) == 1 else ""
@@ -1108,6 +1111,7 @@ def match_finding(c, what):
         ("[post-o2m-keyerror]", "C31-post-update-o2m-keyerror"),
         ("[post-o2m-delete-parent]", "C31-post-update-o2m-delete-parent"),
         ("[m2o-unset-delete-cycle]", "C31-m2o-unset-delete-across-cycle"),
+        ("[m2o-unset-delete-unloaded]", "C31-m2o-unset-delete-unloaded-old-target"),
         ("[passive-deletes-subclass]", "C31-passive-deletes-subclass-members"),
     ):
         if what.endswith(tag):
@@ -1128,9 +1132,10 @@ LEVEL_TEXT = (
 )
 LEVEL_NOTE = (
     "partial. Guarded: the theorem assumes (decidable, checked per case) managed, "
-    "which excludes the two refuted regions (many-to-one holder updated while its target of ANOTHER mapper is "
-    "deleted in the per-state regime; post_update column whose target row is deleted while the holder "
-    "survives). Statement contents are a static function of the before/after database state (validated "
+    "which excludes the two refuted regions (many-to-one holder updated while its target of another mapper is "
+    "deleted and the OLD target was not loaded, so the unit of work does not know it - the loaded case was "
+    "repaired by a8ba61d and is inside the theorem now; post_update column whose target row is deleted while "
+    "the holder survives). Statement contents are a static function of the before/after database state (validated "
     "against the emitted statements, not derived from sync.py: that is C30). Not covered: primary key "
     "changes (_DetectKeySwitch, listonly states), passive_deletes, delete-orphan presort, the table order "
     "inside one joined-inheritance object (checked by the SQLite oracle only), deferred constraints, "
